@@ -233,7 +233,9 @@ def register_wellformedness_witnesses(w):
         for oname, wn, bound in (("a_function_that_returns_its_argument_gives_a_loadable_model", "D30", "one program: lambda x: ident(x) + 1.0 with @onnx_function def ident(x): return x"),
                                  ("a_custom_input_name_equal_to_a_loop_body_value_name_is_rejected_or_harmless", "D31", "one program: fori_loop body value name used as input_names[0]"),
                                  ("dynamic_update_slice_at_opset_24_gives_a_loadable_model", "D34", "one program: lax.dynamic_update_slice(c[2,5,3], u[2,2,3], (0,p,0)) at opset 24"),
-                                 ("a_float32_constant_next_to_a_float32_cast_under_double_precision_gives_a_well_typed_model", "D35", "one program: x.astype(float32) * float32(0.25), enable_double_precision=True")):
+                                 ("a_float32_constant_next_to_a_float32_cast_under_double_precision_gives_a_well_typed_model", "D35", "one program: x.astype(float32) * float32(0.25), enable_double_precision=True"),
+                                 ("values_bound_in_loop_if_scan_bodies_are_never_read_from_an_enclosing_scope", "C03_control_flow_scopes_family",
+                                  "18 programs (cond / while capturing / while carrying / scan, each followed by 4 uses of a symbolic dimension's size; 2 inside @onnx_function bodies) x {static, symbolic} shapes, symbols bound to (4,5) and (2,2)")):
             holds, detail = run_witness(wn, timeout=900)
             d = {"oid": f"jax2onnx.user_interface:to_onnx#bounded:{oname}", "kind": "bounded", "status": "discharged" if holds else ("refuted" if holds is False else "unknown"),
                  "backend": "enumerated", "time": time.time() - t0, "instances": 1, "trivial": 0, "bounded": bound, "note": f"checker(full_check) + strict shape inference + ONNX Runtime load on the exported model; {detail}"[:500]}
@@ -242,7 +244,7 @@ def register_wellformedness_witnesses(w):
             out["obls"].append(d)
         out["paths"], out["time"] = 1, time.time() - t0
         return out
-    w.add_contract(Contract("jax2onnx.user_interface:<wellformedness-witnesses>", kind="custom", custom=custom, props=["C03"], witnesses=["D30", "D31", "D34", "D35"]))
+    w.add_contract(Contract("jax2onnx.user_interface:<wellformedness-witnesses>", kind="custom", custom=custom, props=["C03"], witnesses=["D30", "D31", "D34", "D35", "C03_control_flow_scopes_family"]))
 
 
 def register_attach(w):
